@@ -44,7 +44,13 @@ Matches == {"name", "port", "both", "none"}
 (* in the client configuration                                             *)
 Srcs == IF Focus = "sources"
         THEN {"udef", "ucfg1", "ucfg2", "gcfg1", "gcfg2"} ELSE {"arg"}
-Line == [marker : Markers, match : Matches, key : LineKeys, src : Srcs]
+(* through what a pattern matches: the name as dialled ("name"), the text *)
+(* of the address ("addrtext": exact, hashed, wildcard on the address), a  *)
+(* CIDR range ("cidr"), or everything except a CIDR range ("negcidr")      *)
+Vias == IF Focus = "shape" THEN {"name", "addrtext", "cidr", "negcidr"}
+        ELSE {"name"}
+Line == [marker : Markers, match : Matches, key : LineKeys, src : Srcs,
+         via : Vias]
 
 (* validity windows [va, vb) around Now *)
 Windows == {"in", "startsNow", "endsNext", "notYet", "endsNow", "expired"}
@@ -63,7 +69,8 @@ PresCertAll == [kind : {"cert"}, key : {"K1"}, ca : {"CA1"},
                 princ : {"covers", "other", "empty"}, certSig : BOOLEAN,
                 holds : BOOLEAN]
 
-L(mk, mt, k) == [marker |-> mk, match |-> mt, key |-> k, src |-> "arg"]
+L(mk, mt, k) == [marker |-> mk, match |-> mt, key |-> k, src |-> "arg",
+                 via |-> "name"]
 CertFocusLines ==
     { <<L("ca", "name", "CA1")>>,
       <<L("ca", "name", "CA2")>>,
@@ -113,10 +120,13 @@ VARIABLES
     credsSent,
     userSet,    \* UserKnownHostsFile: "na" (known_hosts= given) | "unset" |
                 \* "none" | "one" | "two" (files)
-    globalSet   \* GlobalKnownHostsFile: "na" | "unset" | "one" | "two"
+    globalSet,  \* GlobalKnownHostsFile: "na" | "unset" | "one" | "two"
+    shape,      \* "na" | "direct" (TCP, peer address known) | "tunnel"
+                \* (through another SSH connection / a proxy: no address)
+    hostform    \* host as dialled: "na" | "name" | "ip4" | "ip6" literal
 
 vars == <<lines, port, mode, cbKey, cbCA, pres, phase, credsSent, userSet,
-          globalSet>>
+          globalSet, shape, hostform>>
 
 FileExists(src, u, g) ==
     CASE src = "ucfg1" -> u \in {"one", "two"} [] src = "ucfg2" -> u = "two"
@@ -129,6 +139,9 @@ Init ==
        THEN /\ userSet \in {"unset", "none", "one", "two"}
             /\ globalSet \in {"unset", "one", "two"}
        ELSE userSet = "na" /\ globalSet = "na"
+    /\ IF Focus = "shape"
+       THEN shape \in {"direct", "tunnel"} /\ hostform \in {"name", "ip4", "ip6"}
+       ELSE shape = "na" /\ hostform = "na"
     /\ \/ /\ Focus = "lines"
           /\ lines \in AllLineSeqs /\ port \in {"def", "nondef"}
           /\ mode = "file" /\ cbKey = FALSE /\ cbCA = FALSE
@@ -157,6 +170,14 @@ Init ==
           \* "UserKnownHostsFile none" is documented to switch host key
           \* checking off, like known_hosts=None
           /\ mode = IF userSet = "none" THEN "none" ELSE "file"
+          /\ pres \in {p \in PresKey \cup PresCertGood : p.holds}
+       \/ /\ Focus = "shape"
+          \* connection shape x form of the host x what a pattern matches
+          /\ lines \in UNION {[1..n -> {l \in Line :
+                                 /\ l.match = "name"
+                                 /\ (l.via = "name" => hostform = "name")}]
+                            : n \in 0..MaxLines}
+          /\ port = "def" /\ mode = "file" /\ cbKey = FALSE /\ cbCA = FALSE
           /\ pres \in {p \in PresKey \cup PresCertGood : p.holds}
        \/ /\ Focus = "trustall"
           /\ lines \in {<<>>, <<L("revoked", "both", "K1")>>,
@@ -190,7 +211,12 @@ Variants == {"dropPortRevoked", "orRevoked", "revokedPrimaryOnly",
              \* union of their lines
              "globalOnlyFallback", "userOnlyFallback", "firstFileOnly",
              "lastFileOnly", "globalRevokedIgnored", "userRevokedIgnored",
-             "defaultAlsoConsulted", "globalNeverConsulted"}
+             "defaultAlsoConsulted", "globalNeverConsulted",
+             \* patterns are matched against the name as dialled and
+             \* against the address when one is known; an IP literal host
+             \* is its own address
+             "cidrNeedsPeerAddr", "cidrNever", "cidrNegationIgnored",
+             "addrAlwaysKnown"}
 
 (* which sources are consulted (connection.py SSHClientConnectionOptions   *)
 (* .prepare: the files of UserKnownHostsFile followed by those of          *)
@@ -201,8 +227,19 @@ IsUser(src) == src \in {"ucfg1", "ucfg2"}
 IsGlobal(src) == src \in {"gcfg1", "gcfg2"}
 UserFiles == userSet \in {"one", "two"}
 GlobalFiles == globalSet \in {"one", "two"}
+AddrKnown(mu) == shape # "tunnel" \/ hostform \in {"ip4", "ip6"}
+                 \/ mu = "addrAlwaysKnown"
+CidrApplies(mu) == CASE mu = "cidrNeedsPeerAddr" -> shape # "tunnel"
+                     [] mu = "cidrNever" -> FALSE
+                     [] OTHER -> AddrKnown(mu)
+ShapeMatches(mu, l) ==
+    CASE l.via = "addrtext" -> AddrKnown(mu)
+      [] l.via = "cidr" -> CidrApplies(mu)
+      [] l.via = "negcidr" -> ~CidrApplies(mu) \/ mu = "cidrNegationIgnored"
+      [] OTHER -> TRUE
 Consulted(mu, l) ==
     LET src == l.src IN
+    /\ ShapeMatches(mu, l)
     /\ FileExists(src, userSet, globalSet)
     /\ CASE src = "arg" -> TRUE
          [] src = "udef" -> \/ userSet = "unset" /\ globalSet = "unset"
@@ -318,12 +355,15 @@ SourceVariants == {"globalOnlyFallback", "userOnlyFallback", "firstFileOnly",
                    "lastFileOnly", "globalRevokedIgnored",
                    "userRevokedIgnored", "defaultAlsoConsulted",
                    "globalNeverConsulted"}
+ShapeVariants == {"cidrNeedsPeerAddr", "cidrNever", "cidrNegationIgnored",
+                  "addrAlwaysKnown"}
 CallbackVariants == {"cbWaivesCertChecks", "cbWaivesType", "cbWaivesWindow",
                      "cbWaivesPrinc", "cbKeyForCert", "cbCAForKey",
                      "cbKeyForRevoked", "cbCAForRevoked"}
 (* variants that cannot differ in a focus are not evaluated there *)
 ActiveVariants ==
-    (Variants \ (IF Focus = "sources" THEN {} ELSE SourceVariants))
+    ((Variants \ (IF Focus = "sources" THEN {} ELSE SourceVariants))
+        \ (IF Focus = "shape" THEN {} ELSE ShapeVariants))
         \ (IF Focus \in {"callbacks", "cbcert"} THEN {} ELSE CallbackVariants)
 Discriminates == {mu \in ActiveVariants : DecisionM(mu) # TrustRule}
 
@@ -331,15 +371,16 @@ Discriminates == {mu \in ActiveVariants : DecisionM(mu) # TrustRule}
 Connect ==
     /\ phase = "connect" /\ phase' = "reply"
     /\ UNCHANGED <<lines, port, mode, cbKey, cbCA, pres, credsSent, userSet,
-                   globalSet>>
+                   globalSet, shape, hostform>>
 Decide ==
     /\ phase = "reply"
     /\ phase' = IF Decision THEN "accepted" ELSE "rejected"
     /\ UNCHANGED <<lines, port, mode, cbKey, cbCA, pres, credsSent, userSet,
-                   globalSet>>
+                   globalSet, shape, hostform>>
 SendAuth ==
     /\ phase = "accepted" /\ phase' = "auth" /\ credsSent' = TRUE
-    /\ UNCHANGED <<lines, port, mode, cbKey, cbCA, pres, userSet, globalSet>>
+    /\ UNCHANGED <<lines, port, mode, cbKey, cbCA, pres, userSet, globalSet,
+                   shape, hostform>>
 Next == Connect \/ Decide \/ SendAuth
 Spec == Init /\ [][Next]_vars
 
@@ -355,7 +396,7 @@ Emitted ==
                  \* the sets the lookup yields, for known_hosts given as
                  \* key lists / as a callable instead of as file content
                  TrustedKeys("none"), TrustedCAs("none"), Revoked("none"),
-                 userSet, globalSet>>)
+                 userSet, globalSet, shape, hostform>>)
 
 NeverAccepted == phase # "accepted"
 NeverFallbackAccept == ~(phase = "accepted" /\ Fallback("none"))
